@@ -120,12 +120,19 @@ Definition consume_fixed64 (b : bytes) : Z * Z :=
   | _ => (0, errTruncated)
   end.
 
+(* m <= len(l), computed by walking at most m elements (no length is materialised) *)
+Fixpoint has_len_z (l : bytes) (m : Z) : bool :=
+  match l with
+  | [] => m <=? 0
+  | _ :: t => (m <=? 0) || has_len_z t (m - 1)
+  end.
+
 (* ConsumeBytes: m,n := ConsumeVarint(b); if m > len(b[n:]) truncated; b[n:][:m], n+int(m) *)
 Definition consume_bytes (b : bytes) : bytes * Z :=
   let '(m, n) := consume_varint b in
   if n <? 0 then ([], n) else
   let rest := skipn (Z.to_nat n) b in
-  if Z.of_nat (length rest) <? m then ([], errTruncated)
+  if negb (has_len_z rest m) then ([], errTruncated)
   else (firstn (Z.to_nat m) rest, n + m).
 Definition append_bytes (v : bytes) : bytes := append_varint (Z.of_nat (length v)) ++ v.
 
